@@ -584,6 +584,10 @@ func (self Node) Fields(ids []PathNode, rootLayer bool, msgDesc *proto.MessageDe
 			return errNode(meta.ErrRead, "", it.Err)
 		}
 		f := msgDesc.ByNumber(i)
+		if f == nil {
+			// unknown field: nothing to report, it has been skipped
+			continue
+		}
 		typDesc := f.Type()
 		if typDesc.IsMap() || typDesc.IsList() {
 			it.p.Read = tagPos
